@@ -18,7 +18,7 @@ func init() {
 			"Not decided: behaviour that depends on buffer capacity, state inside connect/protobuf/gzip, what a backend handler keeps.",
 		Assumptions: []string{"sync.Pool returns either a previously Put object or a New one", "(*bytes.Buffer).Reset empties the buffer; Compressor/Decompressor.Reset re-initialises state as documented by connect",
 			"C15.5: the keys of an http.Header handed to the library are in canonical form (as net/http produces them), so that Header.Set/Add/Del under distinct keys touch distinct entries; protoreflect's Range over message fields is not examined"},
-		Run:         runC15,
+		Run: runC15,
 	})
 }
 
